@@ -206,7 +206,10 @@ func c13GC(x *engine.X) {
 	// was created — so that B's descriptor number is the one A had — and A is closed AGAIN once B's operations are
 	// in flight. A's second Close must not touch anything of B: neither the descriptor (the close family checks
 	// that) nor B's registration with the IO, which is what keeps B alive.
-	hist := x.Pick(1+len(c13Kinds), "an earlier object was closed before, and is closed again afterwards")
+	// ... or (last choice) the earlier object is an adapter with a read in flight whose net.Conn was closed directly,
+	// the way websocket's CloseNextLayer does it: the adapter itself is never closed, so whatever it left in the
+	// IO's tables is stale when B takes over the descriptor number.
+	hist := x.Pick(2+len(c13Kinds), "an earlier object was closed before, and is closed again afterwards")
 	var ioc *sonic.IO
 	var g *gcObj
 	if hist == 0 {
@@ -219,18 +222,46 @@ func c13GC(x *engine.X) {
 	} else {
 		e := newC13Env(x)
 		ioc = e.ioc
-		// descriptors that gcCreate allocates before B's own one: park as many low numbers so that B lands on A's
-		var fillers []int
-		for i := 0; i < map[string]int{"tcp": 1, "adp": 2, "fifo-r": 2}[kind]; i++ {
-			fd, _ := syscall.Dup(0)
-			fillers = append(fillers, fd)
+		var a *c13Obj
+		if hist == 1+len(c13Kinds) {
+			a = c13Create(e, "adapter")
+			a.kind = "adapter (read in flight, owner closed directly)"
+			a.startRead()
+			a.owner()
+			a.close = func() error { return nil } // the adapter is never closed
+			a.owner = nil
+		} else {
+			a = c13Create(e, c13Kinds[hist-1])
+			a.close()
 		}
-		a := c13Create(e, c13Kinds[hist-1])
-		a.close()
+		// Make B land on A's (first) descriptor number N: occupy every free number below N, then free as many of
+		// them again as gcCreate allocates before B's own descriptor (a raw listener, the two ends of a pipe or socketpair).
+		var fillers []int
+		if len(a.fds) > 0 {
+			target := a.fds[0]
+			for {
+				fd, err := syscall.Dup(0)
+				if err != nil || fd >= target {
+					if err == nil {
+						syscall.Close(fd)
+					}
+					break
+				}
+				fillers = append(fillers, fd)
+			}
+			pre := map[string]int{"tcp": 1, "adp": 2, "fifo-r": 2}[kind]
+			for i := 0; i < pre && len(fillers) > 0; i++ {
+				syscall.Close(fillers[len(fillers)-1])
+				fillers = fillers[:len(fillers)-1]
+			}
+			if pre > 0 && len(fillers) == 0 {
+				// (no room below N for the helper descriptors: B will not land on N; the execution is still valid)
+			}
+		}
+		g = gcCreate(x, ioc, kind, wantR, wantW, rearm)
 		for _, fd := range fillers {
 			syscall.Close(fd)
 		}
-		g = gcCreate(x, ioc, kind, wantR, wantW, rearm)
 		reused := false
 		for _, fd := range a.fds {
 			reused = reused || fd == g.fd
